@@ -4,8 +4,9 @@ A field listed here is an assumption about the shape of the object (checked by t
 
 def register(R, P):
     R.consts.update({"OBJ": 0, "KEY": 1})
+    R.consts["nx.__version__"] = "3.6.1"      # environment fact: the installed networkx (trusted; setup_cmd prints it)
     R.cls("object")
-    R.cls("type"); R.cls("traceback")
+    R.cls("TypeObj"); R.cls("TracebackObj")
     R.cls("BaseException")
     for e in R.exc_parents:
         if e != "BaseException":
@@ -14,7 +15,8 @@ def register(R, P):
     R.cls("CellsBoundFunction", fields={"owner": "CellsImpl"})
     R.cls("TraceGraph", content="graph")
     R.cls("ReferenceGraph", content="graph[rnode]")
-    R.cls("ModelImpl", fields={"tracegraph": "TraceGraph", "refgraph": "ReferenceGraph", "system": "System"})
+    R.cls("TraceManager")
+    R.cls("ModelImpl", bases=("TraceManager", "Impl"), fields={"tracegraph": "TraceGraph", "refgraph": "ReferenceGraph", "system": "System"})
     R.cls("NodeObj", fields={
         "is_cached": "bool", "model": "ModelImpl", "data": "dict[key,val]", "system": "System"},
         doc="objects that appear as node[OBJ]: cells and parametrised spaces (ItemSpaceParent.data is param_spaces)")
@@ -22,11 +24,12 @@ def register(R, P):
         "input_keys": "set[key]", "altfunc": "CellsBoundFunction"})
     R.cls("Impl", fields={"allow_none": "val", "parent": "Impl"})
     R.cls("ReferenceImpl")
-    R.cls("Executor", fields={
+    R.cls("NonThreadedExecutor")
+    R.cls("Executor", bases=("NonThreadedExecutor",), fields={
         "refstack": "deque[tuple[int,ReferenceImpl]]", "rolledback": "deque[tuple[int,BaseException,node]]", "callstack": "CallStack",
         "ghost_runs": "int",
         "is_executing": "bool", "is_formula_error_used": "bool", "is_formula_error_handled": "bool",
-        "excinfo": "tuple[type,BaseException,traceback]", "errorstack": "ErrorStack", "buffer": "val"})
+        "excinfo": "tuple[TypeObj,BaseException,TracebackObj]", "errorstack": "ErrorStack", "buffer": "val"})
     R.cls("ErrorStack")
     R.cls("CallStack", content="deque[node]", fields={
         "executor": "Executor", "refstack": "deque[tuple[int,ReferenceImpl]]", "idxstack": "deque[int]",
